@@ -4,7 +4,11 @@ package main
 //
 // Records
 //   ein.msgs  <msgs>                       | <returned strings, comma separated hex>   (or panic:...)
+//   ein.rt    <msgs>                       | [ n (<msg> | ~)*  = decoder(encoder(msgs)): the round trip through both converters
 //   din.lines [ n <hex line>* J [ k <json oracle entry>*   | [ n (<msg> | ~)*          (or panic:...)
+//   din.rx    <regex variable name>        | <hex of the pattern text of the library's compiled regexp object>
+//   din.match <regex variable name> <hex line> | - (no match) or M <hex submatch 1> <hex submatch 2> ... (empty = -)
+//             (the REAL regexp objects of converterFunctions.go, reached through go:linkname: rxlink.go)
 // Canonical token format of messages: see lean/RawPanelVerif/Driver/ConvIn.lean.
 // JSON oracle entries (what encoding/json produced for the JSON-carrying lines of the record):
 //   S <hex line> <state>      json.Unmarshal(line, &HWCState{})
@@ -631,6 +635,12 @@ func (e *convInExec) exec1(cmd string, a []string) string {
 			if res == "" {
 				res = "-"
 			}
+		case "ein.rt":
+			ms := rMsgs(&tr{toks: a})
+			out := helpers.RawPanelASCIIstringsToInboundMessages(helpers.InboundMessagesToRawPanelASCIIstrings(ms))
+			w := &tw{}
+			pMsgs(w, out, false)
+			res = w.String()
 		case "din.lines":
 			r := &tr{toks: a}
 			r.expect("[")
@@ -643,6 +653,14 @@ func (e *convInExec) exec1(cmd string, a []string) string {
 			w := &tw{}
 			pMsgs(w, out, false)
 			res = w.String()
+		case "din.rx":
+			rx := libRegex(a[0])
+			if rx == nil {
+				panic("unknown regex " + a[0])
+			}
+			res = hx([]byte(rx.String()))
+		case "din.match":
+			res = rxMatchRecord(a[0], string(unhx(a[1])))
 		default:
 			panic("unknown record " + cmd)
 		}
@@ -720,7 +738,14 @@ func emitLines(lines []string) string {
 type mgen struct {
 	r    *Rng
 	wild bool // out-of-range enums / integers, LF and '|' in strings, odd presence patterns (C06 stream)
+	// out-of-range enums and bit fields, both colour alternatives, second line without pair mode, image without data,
+	// negative enum arguments - but strings stay free of '|' and LF and register ids in their alphabet
+	// (C01: Spec.inWireDomain, the domain of enc_sound_masked)
+	wide bool
 }
+
+// out-of-range values wanted
+func (g *mgen) oor() bool { return g.wild || g.wide }
 
 var u32Bound = []uint32{0, 1, 2, 3, 15, 16, 84, 85, 127, 128, 169, 170, 254, 255, 256, 4095, 4096, 65535, 65536, 1<<31 - 1, 1 << 31, 1<<32 - 1}
 var i32Bound = []int32{0, 1, -1, 2, 7, 9, 10, 99, 100, -100, 32767, -32768, 1<<31 - 1, -1 << 31}
@@ -746,7 +771,7 @@ func (g *mgen) i32() int32 {
 
 // enum in 0..max; wild: sometimes negative / far out of range
 func (g *mgen) enum(max int) int32 {
-	if g.wild && g.r.Chance(25) {
+	if g.oor() && g.r.Chance(25) {
 		switch g.r.Intn(4) {
 		case 0:
 			return -1
@@ -762,7 +787,7 @@ func (g *mgen) enum(max int) int32 {
 
 // below n; wild: sometimes anything
 func (g *mgen) below(n int) uint32 {
-	if g.wild && g.r.Chance(25) {
+	if g.oor() && g.r.Chance(25) {
 		return g.u32()
 	}
 	if g.r.Chance(30) {
@@ -800,7 +825,7 @@ func (g *mgen) str(maxAtoms int) string {
 func (g *mgen) color() (*rwp.ColorRGB, *rwp.ColorIndex) {
 	switch g.r.Intn(8) {
 	case 0:
-		if g.wild {
+		if g.oor() {
 			return nil, nil
 		}
 		fallthrough
@@ -813,7 +838,7 @@ func (g *mgen) color() (*rwp.ColorRGB, *rwp.ColorIndex) {
 		}
 		return &rwp.ColorRGB{Red: ch(), Green: ch(), Blue: ch()}, nil
 	case 4:
-		if g.wild {
+		if g.oor() {
 			return &rwp.ColorRGB{Red: g.u32()}, &rwp.ColorIndex{Index: rwp.ColorIndex_Colors(g.enum(31))}
 		}
 		fallthrough
@@ -866,7 +891,7 @@ func (g *mgen) text() *rwp.HWCText {
 	if p() {
 		t.PairMode = rwp.HWCText_PairModeE(g.enum(4))
 	}
-	if !g.wild && (t.Textline2 != "" || t.IntegerValue2 != 0) && t.PairMode < 1 && !g.r.Chance(3) {
+	if !g.oor() && (t.Textline2 != "" || t.IntegerValue2 != 0) && t.PairMode < 1 && !g.r.Chance(3) {
 		t.PairMode = rwp.HWCText_PairModeE(g.r.Range(1, 4))
 	}
 	if p() {
@@ -929,7 +954,7 @@ func (g *mgen) gfx() *rwp.HWCGfx {
 	case 2:
 		n = g.r.Range(1, 600)
 	case 3:
-		if g.wild {
+		if g.oor() {
 			n = 0
 		} else {
 			n = g.r.Range(160, 180)
@@ -1093,7 +1118,7 @@ func (g *mgen) setFlag(c *rwp.Command, i int) {
 }
 
 func (g *mgen) posEnum() int32 {
-	if g.wild && g.r.Chance(30) {
+	if g.oor() && g.r.Chance(30) {
 		return g.i32()
 	}
 	if g.r.Chance(70) {
@@ -1278,11 +1303,67 @@ func singleFieldText(f int) *rwp.HWCText {
 	return t
 }
 
+// messages outside InDomainIn but inside Spec.inWireDomain: what the wire carries of out-of-range fields
+// (checked against the effects of Spec.maskMsg)
+func wideC01() {
+	u := uint32(1<<32 - 1)
+	for _, st := range []int32{-1, 6, 7, 8, 13, 1<<31 - 1, -1 << 31} {
+		for _, b := range []uint32{16, 17, 255, 256, 4096, u} {
+			emitMsgs(one(&rwp.HWCState{HWCIDs: []uint32{7}, HWCMode: &rwp.HWCMode{State: rwp.HWCMode_StateE(st), Output: b%2 == 1, BlinkPattern: b}}))
+		}
+	}
+	for _, ip := range []int32{-1, 16, 19, 1<<31 - 1, -1 << 31} {
+		for _, v := range []uint32{4096, 4097, 5000, 65535, 65536, u} {
+			emitMsgs(one(&rwp.HWCState{HWCIDs: []uint32{7}, HWCExtended: &rwp.HWCExtended{Interpretation: rwp.HWCExtended_InterpretationE(ip), Value: v}}))
+		}
+	}
+	for _, i := range []int32{-1, 32, 33, 63, 64, 77, 1<<31 - 1, -1 << 31} {
+		ci := &rwp.ColorIndex{Index: rwp.ColorIndex_Colors(i)}
+		emitMsgs(one(&rwp.HWCState{HWCIDs: []uint32{7}, HWCColor: &rwp.HWCColor{ColorIndex: ci}}))
+		emitMsgs(one(&rwp.HWCState{HWCIDs: []uint32{7}, HWCColor: &rwp.HWCColor{ColorRGB: &rwp.ColorRGB{Red: 255, Green: 90}, ColorIndex: ci}}))
+		emitMsgs(one(&rwp.HWCState{HWCIDs: []uint32{7}, HWCText: &rwp.HWCText{Title: "c", PixelColor: &rwp.Color{ColorIndex: ci},
+			BackgroundColor: &rwp.Color{ColorRGB: &rwp.ColorRGB{Blue: u}, ColorIndex: ci}}}))
+	}
+	emitMsgs(one(&rwp.HWCState{HWCIDs: []uint32{7}, HWCColor: &rwp.HWCColor{}}))
+	txt := []*rwp.HWCText{
+		{Formatting: -1}, {Formatting: -1 << 31}, {Formatting: 13}, {Formatting: 1<<31 - 1, IntegerValue: 5},
+		{StateIcon: 4}, {StateIcon: 7, ModifierIcon: 9}, {StateIcon: -1}, {ModifierIcon: -1, StateIcon: 2}, {ModifierIcon: 8}, {StateIcon: -1, ModifierIcon: -8},
+		{Textline2: "b"}, {IntegerValue2: -4}, {Textline2: "b", PairMode: -2}, {PairMode: -1}, {PairMode: 5}, {Textline2: "b", Formatting: 10},
+		{Scale: &rwp.HWCText_ScaleM{}}, {Scale: &rwp.HWCText_ScaleM{ScaleType: -1, RangeLow: 5}}, {Scale: &rwp.HWCText_ScaleM{ScaleType: 4, RangeHigh: -5}},
+		{Scale: &rwp.HWCText_ScaleM{RangeLow: 1, LimitHigh: 2}},
+		{TextStyling: &rwp.HWCText_TextStyle{}}, {TextStyling: &rwp.HWCText_TextStyle{TextFont: &rwp.HWCText_TextStyle_Font{FontFace: 13, TextWidth: 6, TextHeight: u}}},
+		{TextStyling: &rwp.HWCText_TextStyle{TitleFont: &rwp.HWCText_TextStyle_Font{FontFace: -1, TextWidth: 4, TextHeight: 5}, TitleBarPadding: 5, ExtraCharacterSpacing: 9}},
+		{TextStyling: &rwp.HWCText_TextStyle{TitleBarPadding: 4, ExtraCharacterSpacing: 8}},
+		{PixelColor: &rwp.Color{}}, {BackgroundColor: &rwp.Color{ColorIndex: &rwp.ColorIndex{Index: 32}}},
+	}
+	for _, t := range txt {
+		emitMsgs(one(&rwp.HWCState{HWCIDs: []uint32{3, 4}, HWCText: t}))
+	}
+	for _, ty := range []int32{-1, 3, 9, 1<<31 - 1} {
+		emitMsgs(one(&rwp.HWCState{HWCIDs: []uint32{3}, HWCGfx: &rwp.HWCGfx{ImageType: rwp.HWCGfx_ImageTypeE(ty), W: 8, H: 8, ImageData: []byte{1, 2, 3}}}))
+	}
+	emitMsgs(one(&rwp.HWCState{HWCIDs: []uint32{3}, HWCGfx: &rwp.HWCGfx{W: 8, H: 8}}))
+	emitMsgs(one(&rwp.HWCState{HWCIDs: []uint32{3}, HWCGfx: &rwp.HWCGfx{ImageType: 1, XYoffset: true}, HWCMode: &rwp.HWCMode{State: 1}}))
+	for _, v := range []int32{-1, -1 << 31, 1<<31 - 1} {
+		emitMsgs([]*rwp.InboundMessage{{Command: &rwp.Command{SetSleepMode: &rwp.SleepMode{Mode: rwp.SleepMode_SlpMode(v)}, ClearAll: true,
+			SetSleepScreenSaver: &rwp.SleepScreenSaver{Type: rwp.SleepScreenSaver_SlpScrSaver(v)}, LoadCPU: &rwp.LoadCPU{Level: rwp.LoadCPU_LevelE(v)},
+			SimulateEnvironmentalHealth: &rwp.Environment{RunMode: rwp.Environment_RunModeE(v)}}}})
+	}
+	for _, f := range []int32{-1, 4, 9} {
+		emitMsgs([]*rwp.InboundMessage{{FlowMessage: rwp.InboundMessage_FlowMsg(f), Registers: []*rwp.Register{{Reg: rwp.Register_RegisterE(f), Id: "A1", Value: 3}, {Reg: 0, Id: "A1", Value: 3}}}})
+	}
+}
+
 func genC01(r *Rng, n int, tier string) {
 	sweepC01()
+	wideC01()
 	g := &mgen{r: r}
 	for i := 0; i < n; i++ {
-		emitMsgs(g.msgs())
+		g.wide = r.Chance(25)
+		ms := g.msgs()
+		emitMsgs(ms)
+		// the same messages through encoder and decoder (C02.roundtrip_in on the implementation)
+		emitS("ein.rt", msgsTokens(ms, true))
 	}
 }
 
@@ -1450,6 +1531,24 @@ func (g *lgen) gfxLines() []string {
 	return out
 }
 
+// two transfers woven into each other (each keeps its own order): outside Spec.inDomainLines (gfxDiscipline), so only
+// the correspondence model = implementation is checked on them (the decoder ignores parts of a foreign id list / format,
+// the reference reader abandons: theorem C02.foreign_part_divergence)
+func (g *lgen) interleaved() []string {
+	a, b := g.gfxLines(), g.gfxLines()
+	var out []string
+	for len(a) > 0 || len(b) > 0 {
+		if len(b) == 0 || (len(a) > 0 && g.r.Bool()) {
+			out = append(out, a[0])
+			a = a[1:]
+		} else {
+			out = append(out, b[0])
+			b = b[1:]
+		}
+	}
+	return out
+}
+
 var nonGrammar = []string{"", "PING", "ping ", " ping", "pong", "Ping", "hello world", "HWCy#1=2", "hwc#1=2", "HWC1=2", "Memx=1", "mem=1", "MEMA=1",
 	"flag#1=1", "State_1=2", "Shifta=3", "foo=bar", "=5", "#=1", "HeartBeat=5", "heartbeattimer=5", "Brightness=1,2", "Sleep=1", "HWCg=0:AAAA",
 	"Clear!", "Reboot?", "list=1", "map=1:2", "_model=x", "HWC#1", "BSY", "RDY", "Webserver", "Flag1=2",
@@ -1490,6 +1589,9 @@ func (g *lgen) line() []string {
 	case 14:
 		return []string{"HWCrawADCValues#" + g.idList() + "=" + strconv.Itoa(g.r.Intn(2))}
 	case 15:
+		if g.r.Chance(15) {
+			return g.interleaved()
+		}
 		return g.gfxLines()
 	case 16:
 		k := int32(g.r.Intn(4))
@@ -1505,6 +1607,170 @@ func (g *lgen) line() []string {
 		return []string{string(j)}
 	default:
 		return []string{nonGrammar[g.r.Intn(len(nonGrammar))]}
+	}
+}
+
+// ------------------------------------------------------------------------------------------------
+// the six hand-written byte matchers of Model/DecIn.lean against the library's real regexp objects
+// ------------------------------------------------------------------------------------------------
+
+var inRegexes = []string{"regex_cmd", "regex_gfx", "regex_genericSingle", "regex_genericDual", "regex_genericSingleStr", "regex_registers"}
+
+// the significant bytes: digits, the separators of the six patterns, the bytes just outside the classes [0-9] ('/' ':')
+// and [A-Z] ('@' '['), a lower-case letter, white space, LF ('.' does not match it), CR, a non-ASCII byte, '#', '|'
+var rxAlphabet = []byte{'0', '9', ',', '=', '/', 'x', ':', '-', 'A', 'Z', 'a', ' ', '\n', 0xc3, '#', '@', '[', '\r', '|'}
+
+// prefixes of valid lines at every structural position of each pattern
+func rxStems(name string) []string {
+	var out []string
+	switch name {
+	case "regex_cmd":
+		for _, kw := range []string{"HWC#", "HWCx#", "HWCc#", "HWCt#", "HWCrawADCValues#"} {
+			for _, t := range []string{"", "1", "1,", "1,2", "1=", "1=5", "1,2=a|b"} {
+				out = append(out, kw+t)
+			}
+		}
+	case "regex_gfx":
+		for _, kw := range []string{"HWCgRGB#", "HWCgGray#", "HWCg#"} {
+			for _, t := range []string{"", "1", "1,2", "1=", "1=0", "1=0:", "1=0:AA", "1=0/", "1=0/1", "1=0/1,", "1=0/1,2", "1=0/1,2x", "1=0/1,2x3", "1=0/1,2x3:",
+				"1=0/1,2x3,", "1=0/1,2x3,4", "1=0/1,2x3,4,", "1=0/1,2x3,4,5", "1=0/1,2x3,4,5:", "1=0/1,2x3,4,5:AA"} {
+				out = append(out, kw+t)
+			}
+		}
+	case "regex_genericSingle":
+		for _, kw := range numKeys {
+			for _, t := range []string{"", "=", "=5", "=50"} {
+				out = append(out, kw+t)
+			}
+		}
+	case "regex_genericDual":
+		for _, t := range []string{"", "=", "=1", "=1,", "=1,2", "=10,20"} {
+			out = append(out, "PanelBrightness"+t)
+		}
+	case "regex_genericSingleStr":
+		for _, kw := range []string{"SetCalibrationProfile", "SimulateEnvironmentalHealth", "SetNetworkConfig"} {
+			for _, t := range []string{"", "=", "=x", "={\"a\":1}"} {
+				out = append(out, kw+t)
+			}
+		}
+	case "regex_registers":
+		for _, kw := range []string{"Flag#", "Mem", "Shift", "State"} {
+			for _, t := range []string{"", "A", "A1", "7", "A1=", "A1=5", "=5", "=50"} {
+				out = append(out, kw+t)
+			}
+		}
+	}
+	return out
+}
+
+// complete lines each pattern accepts (all keywords, shortest and longest forms)
+func rxValid(name string) []string {
+	switch name {
+	case "regex_cmd":
+		return []string{"HWC#1=5", "HWCx#12,3=4095", "HWCc#7=209", "HWCt#1,2=-12|1|11|Title", "HWCrawADCValues#3=1", "HWC#1="}
+	case "regex_gfx":
+		return []string{"HWCg#1=0:AA", "HWCgRGB#1,2=0/1,8x8:AAAA", "HWCgGray#3=0/12,64x32,3,4:/w==", "HWCg#9=12:", "HWCg#1=0/0,0x0:"}
+	case "regex_genericSingle":
+		return []string{"HeartBeatTimer=5", "DimmedGain=10", "PublishSystemStat=0", "LoadCPU=3", "SleepTimer=600", "SleepMode=1", "SleepScreenSaver=2",
+			"Webserver=1", "JSONonOutbound=0", "PanelBrightness=7"}
+	case "regex_genericDual":
+		return []string{"PanelBrightness=3,4", "PanelBrightness=10,200"}
+	case "regex_genericSingleStr":
+		return []string{"SetCalibrationProfile={\"a\": 1}", "SimulateEnvironmentalHealth=Normal", "SetNetworkConfig={}", "SetNetworkConfig="}
+	case "regex_registers":
+		return []string{"Flag#12=1", "MemA1=5", "ShiftB=0", "State=3", "Mem=1", "Flag#=0", "StateZ9=4294967295"}
+	}
+	return nil
+}
+
+func emitMatch(name string, line []byte) { emit("din.match", name, line) }
+
+// every string over the alphabet of length 0..maxLen appended to prefix
+func rxEnum(name string, prefix []byte, maxLen int) {
+	var rec func(cur []byte, left int)
+	rec = func(cur []byte, left int) {
+		emitMatch(name, cur)
+		if left == 0 {
+			return
+		}
+		for _, c := range rxAlphabet {
+			rec(append(cur[:len(cur):len(cur)], c), left-1)
+		}
+	}
+	rec(prefix, maxLen)
+}
+
+// all single edits (delete / replace / insert over the alphabet) of l
+func rxEdits1(l []byte) [][]byte {
+	var out [][]byte
+	for p := 0; p <= len(l); p++ {
+		if p < len(l) {
+			out = append(out, append(append([]byte{}, l[:p]...), l[p+1:]...))
+			for _, c := range rxAlphabet {
+				if c != l[p] {
+					e := append([]byte{}, l...)
+					e[p] = c
+					out = append(out, e)
+				}
+			}
+		}
+		for _, c := range rxAlphabet {
+			e := append(append(append([]byte{}, l[:p]...), c), l[p:]...)
+			out = append(out, e)
+		}
+	}
+	return out
+}
+
+// Bounded-exhaustive comparison of the byte matchers with the real regular expressions:
+//   * one din.rx record per pattern (the compiled object's pattern text = the extracted source text the proofs pin)
+//   * every string of length <= L over the alphabet alone and after every stem (own pattern; alone: all six patterns)
+//   * every valid line against all six patterns, all its single edits (own pattern), and double edits: a random sample
+//     per line (300 quick / 5000 thorough), in the thorough tier ALL double edits of the shortest valid line of each pattern
+func genInMatch(r *Rng, tier string) {
+	thorough := tier == "thorough"
+	for _, name := range inRegexes {
+		emit("din.rx", name)
+	}
+	free, after, dbl := 3, 2, 300
+	if thorough {
+		free, after, dbl = 4, 3, 5000
+	}
+	for _, name := range inRegexes {
+		rxEnum(name, nil, free)
+		for _, st := range rxStems(name) {
+			rxEnum(name, []byte(st), after)
+		}
+	}
+	for _, name := range inRegexes {
+		valid := rxValid(name)
+		shortest := 0
+		for i, v := range valid {
+			if len(v) < len(valid[shortest]) {
+				shortest = i
+			}
+		}
+		for vi, v := range valid {
+			for _, other := range inRegexes {
+				emitMatch(other, []byte(v))
+			}
+			e1 := rxEdits1([]byte(v))
+			for _, e := range e1 {
+				emitMatch(name, e)
+			}
+			if thorough && vi == shortest { // all double edits of the shortest valid line of the pattern
+				for _, e := range e1 {
+					for _, e2 := range rxEdits1(e) {
+						emitMatch(name, e2)
+					}
+				}
+			} else {
+				for i := 0; i < dbl; i++ {
+					e2 := rxEdits1(e1[r.Intn(len(e1))])
+					emitMatch(name, e2[r.Intn(len(e2))])
+				}
+			}
+		}
 	}
 }
 
@@ -1526,6 +1792,7 @@ func sweepC02() {
 }
 
 func genC02(r *Rng, n int, tier string) {
+	genInMatch(r, tier)
 	sweepC02()
 	// every non-grammar sample alone, then next to a state line (minimal replays for "non-grammar lines are silent")
 	for _, l := range nonGrammar {
@@ -1540,6 +1807,22 @@ func genC02(r *Rng, n int, tier string) {
 	emitLines([]string{"HWCgRGB#1,2=0/0,8x8,3,4:QUJD"})
 	emitLines([]string{"HWCg#1=0/1,8x8:QUJD", "HWCg#1=0/1,8x8:REVG", "HWCg#1=1:R0hJ"})
 	emitLines([]string{"HWCg#5=0:QUJD", "HWC#5=4", "HWCg#5=1:REVG", "HWCg#5=2:R0hJ"})
+	// interleaved transfers (outside the domain: correspondence only), the witnesses of foreign_part_divergence /
+	// foreign_format_divergence and variations: A0 B0 A1 B1, A0 B0 B1 A1, foreign format, same ids in two formats, B inside A
+	emitLines([]string{"HWCg#1=0/1,8x8:AAAA", "HWCg#2=0/1,8x8:AQID", "HWCg#1=1:AAAA", "HWCg#2=1:BAUG"})
+	emitLines([]string{"HWCg#1=0/1,8x8:AAAA", "HWCg#2=0/1,8x8:AQID", "HWCg#2=1:BAUG", "HWCg#1=1:AAAA"})
+	emitLines([]string{"HWCg#1=0/1,8x8:AAAA", "HWCgRGB#1=1:AQID", "HWCg#1=1:BAUG"})
+	emitLines([]string{"HWCg#1=0/1,8x8:AAAA", "HWCgGray#1=0/1,8x8:AQID", "HWCg#1=1:AAAA", "HWCgGray#1=1:BAUG"})
+	emitLines([]string{"HWCg#1=0/2,8x8:AAAA", "HWCg#1=1:AAAA", "HWCg#2=0/0,4x4:AQID", "HWCg#1=2:BAUG"})
+	emitLines([]string{"HWCg#1,2=0:AAAA", "HWCg#2,1=1:AQID", "HWCg#1,2=1:AAAA", "HWCg#1,2=2:BAUG"})
+	// the out-of-domain behaviours pinned by theorems (C02 ..._out_of_domain_behaviour)
+	for _, l := range []string{"Flag#A=1", "Flag#A7=0", "Flag#7A=5", "Flag#007=2", "HeartBeatTimer=4294967296", "SleepMode=4294967297", "SleepMode=2147483648",
+		"HeartBeatTimer=99999999999999999999", "HWC#1=99999999999999999999", "HWCg#1=0/0,1x1:QR==", "HWCg#1=0/0,1x1:QQ=", "HeartBeatTimer=4294967301",
+		"Flag#99999999999=1", "Flag#99999999999999999999=1"} {
+		emitLines([]string{l})
+	}
+	emitLines([]string{"HWCgRGB#4,5=0:AAEC", "HWCgRGB#4,5=1:", "HWCgRGB#4,5=2:AwQF"})
+	emitLines([]string{"HWCgRGB#4,5=0/2,64x32:AAEC", "HWCgRGB#4,5=1:", "HWCgRGB#4,5=2:AwQF"})
 	g := &lgen{r: r, m: &mgen{r: r}}
 	for i := 0; i < n; i++ {
 		k := 1
